@@ -517,7 +517,7 @@ void LDAPrediction(matrix *mx,
         continue;
       }
     }
-    prediction->data[i][0] = (argmax+pos);
+    prediction->data[i][0] = ((int)argmax-pos); /* class label = class index + class_start (pos = -class_start) */
   }
 
   /* Predict the the new projection in the feature space */
